@@ -196,12 +196,14 @@ def run_case(desc, ctx):
 
     # ---------------- vertex BFS trees
     for rep in range(3):
-        root = rng.randrange(n)
+        root = 0 if rng.random() < 0.2 else rng.randrange(n)
         avoid_b = (g != "polyline") and rep == 1
         avoid = None
         if rep == 2 or (rep == 0 and rng.random() < 0.5):
             k = rng.randint(1, max(1, len(edges) // 3))
             avoid = set(rng.sample(range(len(edges)), k))
+            if rng.random() < 0.35:
+                avoid.add(0)  # id 0 is a legitimate element of an exclusion set
         adj = {v: set() for v in range(n)}
         for e in E:
             if avoid is not None and eid[e] in avoid:
@@ -324,6 +326,8 @@ def run_case(desc, ctx):
             forb = None
             if rep >= 1:
                 forb = set(rng.sample(range(len(edges)), rng.randint(1, max(1, len(edges) // (2 if rep == 1 else 1) // 2))))
+                if rng.random() < 0.35:
+                    forb.add(0)
             fadj = {f: set() for f in range(nF)}
             for (u, v), (fi, k) in ref.he.items():
                 o = ref.he.get((v, u))
@@ -356,6 +360,8 @@ def run_case(desc, ctx):
             forb = None
             if rep >= 1:
                 forb = set(rng.sample(range(len(faces)), rng.randint(1, max(1, len(faces) // 3))))
+                if rng.random() < 0.35:
+                    forb.add(0)
             cadj = {c: set() for c in range(nC)}
             for t, cl in ref.face_cells.items():
                 if len(cl) == 2 and not (forb is not None and fid[t] in forb):
